@@ -227,7 +227,7 @@ def verus_lane(pid, tier, cov, ledger, findings, assumptions):
             if support:
                 continue        # untagged support lemma of a replaced module: irrelevant for this property
             n_ob += len(clauses)
-            msg = 'module %s: its current text does not compile together with its contracts; it was replaced by its baseline text so that the other modules could be verified -- its own obligations (%s, ...) are undecided' % (f.module, ob_id)
+            msg = 'module %s: its current text cannot be processed together with its contracts (compile error or verifier crash on an unsupported construct); it was replaced by its baseline text so that the other modules could be verified -- its own obligations (%s, ...) are undecided' % (f.module, ob_id)
             if not any(u.startswith('module %s:' % f.module) for u in out['undecided']):
                 out['undecided'].append(msg)
             continue
